@@ -148,6 +148,33 @@ C16Mean(fl, ty, ki, li, data, datab, two) ==
     /\ (fl # "paired") => \A o \in DOMAIN Orders :
           Emit(Tf(mk([data EXCEPT !.order = Orders[o]], datab, ki, FALSE), "reorder", <<>>))
 
+\* mixed signs and magnitudes centred near zero, mantissas of 24 bits at exponents 0 .. -23: every partial sum
+\* rounds and addends regularly exceed the running sum.  Negation must still mirror bit for bit.
+MixSample(i, n) ==
+    LET q  == n \div 5
+        c1 == 1 + Pick(i, 71, 0, q)  c2 == 1 + Pick(i, 72, 0, q)  c3 == Pick(i, 73, 0, q)  c4 == Pick(i, 74, 0, q)
+        c5 == n - c1 - c2 - c3 - c4
+        M == 8388607
+    IN [rle |-> << <<V(Pick(i, 75, -M, M), -23), c1>>, <<V(Pick(i, 76, -M, M), -11), c2>>, <<V(Pick(i, 77, -M, M), 0), c3>>,
+                   <<V(Pick(i, 78, -M, M), -5), c4>>, <<V(Pick(i, 79, -M, M), -17), c5>> >>,
+        order |-> <<"shuffle", 100 + i>>]
+MixSeq(i, m, salt) == [rle |-> [j \in 1..m |-> <<V(Pick(i, salt + j, -8388607, 8388607), -(Pick(i, salt + 500 + j, 0, 23))), 1>>], order |-> "asc"]
+MixNeg(d) ==
+  \A i \in 1..(4 * ND) : \A ty \in {"f64", "f32"} : \A ki \in 1..3 :
+     LET n  == 5 + Pick(900 + i, 11, 0, 55)
+         da == MixSample(900 + i, n)
+         db == MixSample(1900 + i, 5 + Pick(900 + i, 12, 0, 30))
+         m  == Pick(900 + i, 13, 3, 40)
+         pa == MixSeq(900 + i, m, 2000)
+         pb == MixSeq(900 + i, m, 4000)
+         ng(x) == x @@ [neg |-> TRUE] IN
+     /\ Emit(Tf(MeanCase("arith", ty, "ci", ki, 12, da, TRUE), "base", <<>>))
+     /\ Emit(Tf(MeanCase("arith", ty, "ci", FlipK[ki], 12, ng(da), FALSE), "neg", <<>>))
+     /\ Emit(Tf(MeanCase("unpaired", ty, "ci", ki, 12, da, TRUE) @@ [datab |-> db], "base", <<>>))
+     /\ Emit(Tf(MeanCase("unpaired", ty, "ci", FlipK[ki], 12, ng(da), FALSE) @@ [datab |-> ng(db)], "neg", <<>>))
+     /\ Emit(Tf(MeanCase("paired", ty, "ci", ki, 12, pa, TRUE) @@ [datab |-> pb], "base", <<>>))
+     /\ Emit(Tf(MeanCase("paired", ty, "ci", FlipK[ki], 12, ng(pa), FALSE) @@ [datab |-> ng(pb)], "neg", <<>>))
+
 PermsOf(n) == Permutations(1..n)
 C16Part(d) ==
   /\ \A i \in 1..ND : \A ty \in {"f64", "f32"} : \A li \in LevSel : \A ki \in 1..3 :
@@ -182,7 +209,7 @@ C16Part(d) ==
 
 Next == /\ ~done
         /\ done' = TRUE
-        /\ CASE Part = "c10" -> C10Part(done) [] Part = "c16" -> C16Part(done) [] Part = "c10seq" -> C10SeqPart(done)
+        /\ CASE Part = "c10" -> C10Part(done) [] Part = "c16" -> (C16Part(done) /\ MixNeg(done)) [] Part = "c10seq" -> C10SeqPart(done)
              [] Part = "c10extra" -> C10ExtraPart(done)
 Spec == Init /\ [][Next]_done
 =============================================================================
